@@ -114,7 +114,8 @@ Definition init_sess (sch : schema) : sess :=
    Assertion sites (believed unreachable; a hit during the correspondence run is reported as a broken tie): 20 the database value
    of a loaded attribute changed; 21 an unwritten attribute has a value but no database value; 22 a row appears in a fully loaded
    collection; 23 remove: an item survived reverse_remove; 24 assign: items differ after processing; 25 add: a linked item is
-   missing from the collection; 26 a deleted object is a member of a collection. *)
+   missing from the collection; 26 a deleted object is a member of a collection;
+   27 the status of an object changed while its principals were being saved. *)
 
 (* a fresh cache over the database d (rollback, failed commit, new db_session) *)
 Definition reset_sess (d : db) : sess := mkSess [] [] [] [] false false [] d d O false [] false.
@@ -348,7 +349,7 @@ Definition load_row (sch : schema) (s : sess) (e : nat) (r : row) : out (option 
   let '(s2, o) := get_or_seed sch s1 e (r_pk r) in
   if is_del (obj_st s2 o) then Ok s2 None
   else if status_eqb (obj_st s2 o) SCreated then Err (mark_dirty s2 8) EAssertion   (* _db_set_: assert obj._status_ not in created_or_deleted_statuses *)
-  else match db_set_obj sch s2 o e vals with
+  else match db_set_obj sch s2 o (obj_ent s2 o) vals with
        | Ok s3 _ => Ok s3 (Some o)
        | Err s3 er => Err s3 er
        end.
@@ -470,6 +471,7 @@ Definition after_insert_vals (sch : schema) (ob : obj) : obj :=
 Definition save_created (sch : schema) (s : sess) (o : oid) : out unit :=
   match get_obj s o with
   | Some ob =>
+    if negb (status_eqb (o_st ob) SCreated) then Err (mark_dirty s 27) EAssertion else
     let e := o_ent ob in
     match db_insert sch (s_db s) e (o_pk ob) (row_of_obj sch s ob) with
     | inl DbIntegrity => Err s ETxnIntegrity
@@ -504,6 +506,7 @@ Definition after_update_vals (sch : schema) (ob : obj) : obj :=
 Definition save_updated (sch : schema) (s : sess) (o : oid) : out unit :=
   match get_obj s o with
   | Some ob =>
+    if negb (status_eqb (o_st ob) SModified) then Err (mark_dirty s 27) EAssertion else
     let e := o_ent ob in
     let asg := written_asg sch s ob in
     let missing := existsb (fun a => negb (attr_is_set sch e a) && owbit ob a && match oval ob a with None => true | Some _ => false end)
@@ -529,6 +532,7 @@ Definition save_updated (sch : schema) (s : sess) (o : oid) : out unit :=
 Definition save_deleted (sch : schema) (s : sess) (o : oid) : out unit :=
   match get_obj s o with
   | Some ob =>
+    if negb (status_eqb (o_st ob) SMarked) then Err (mark_dirty s 27) EAssertion else
     match o_pk ob with
     | Some pk =>
       match db_delete sch (s_db s) (o_ent ob) pk with
@@ -544,6 +548,23 @@ Definition save_deleted (sch : schema) (s : sess) (o : oid) : out unit :=
 Definition principal_attrs (sch : schema) (ob : obj) : list nat :=
   filter (fun a => attr_is_ref sch (o_ent ob) a && (status_eqb (o_st ob) SCreated || owbit ob a)) (seq O (nattrs sch (o_ent ob))).
 
+(* _save_principal_objects_: created objects that this one references are saved first; rec = _save_ with the remaining fuel *)
+Fixpoint save_principals (rec : sess -> oid -> out unit) (ob : obj) (s0 : sess) (l : list nat) : out unit :=
+  match l with
+  | [] => Ok s0 tt
+  | a :: t =>
+    match oval ob a with
+    | Some (VRef p) =>
+      if status_eqb (obj_st s0 p) SCreated then
+        match rec s0 p with
+        | Ok s1 _ => save_principals rec ob s1 t
+        | Err s1 er => Err s1 er
+        end
+      else save_principals rec ob s0 t
+    | _ => save_principals rec ob s0 t
+    end
+  end.
+
 Fixpoint save_obj (fuel : nat) (sch : schema) (s : sess) (o : oid) (deps : list oid) : out unit :=
   match fuel with
   | O => Err s EOther
@@ -554,22 +575,7 @@ Fixpoint save_obj (fuel : nat) (sch : schema) (s : sess) (o : oid) (deps : list 
       let r0 :=
         if status_eqb st SCreated || status_eqb st SModified then
           if mem_nat o deps then Err s ECyclic
-          else
-            (fix go (s0 : sess) (l : list nat) : out unit :=
-               match l with
-               | [] => Ok s0 tt
-               | a :: t =>
-                 match oval ob a with
-                 | Some (VRef p) =>
-                   if status_eqb (obj_st s0 p) SCreated then
-                     match save_obj f sch s0 p (deps ++ [o]) with
-                     | Ok s1 _ => go s1 t
-                     | Err s1 er => Err s1 er
-                     end
-                   else go s0 t
-                 | _ => go s0 t
-                 end
-               end) s (principal_attrs sch ob)
+          else save_principals (fun s0 p => save_obj f sch s0 p (deps ++ [o])) ob s (principal_attrs sch ob)
         else Ok s tt in
       match r0 with
       | Err s1 er => Err s1 er
@@ -956,6 +962,43 @@ Definition coll_remove_gen (del : sess -> oid -> out unit) (sch : schema) (s : s
     end
   end.
 
+(* the second half of Entity._delete_: leave the collections of the referenced objects, drop the unique keys from the
+   indexes, change the status (created -> cancelled, otherwise marked_to_delete and queued) *)
+Definition del_unlink (sch : schema) (s : sess) (o : oid) (e : nat) (l : list nat) : sess :=
+  fold_left (fun acc a =>
+               match ref_info sch e a, obj_val acc o a with
+               | Some (_, r_), Some (VRef x) => rev_remove acc x r_ o
+               | _, _ => acc
+               end) l s.
+
+Definition del_keys (sch : schema) (s : sess) (o : oid) (e : nat) (l : list nat) : sess :=
+  fold_left (fun acc a =>
+               if attr_uniq sch e a then
+                 match obj_val acc o a with
+                 | Some v => if is_vnone v then acc else idx_del acc e (S a) v
+                 | None => acc
+                 end
+               else acc) l s.
+
+Definition delete_tail (sch : schema) (s1 : sess) (o : oid) (ob : obj) : out unit :=
+  let e := o_ent ob in
+  let attrs := seq O (nattrs sch e) in
+  let s3 := del_keys sch (del_unlink sch s1 o e attrs) o e attrs in
+  match get_obj s3 o with
+  | None => Err s3 EOther
+  | Some ob3 =>
+    (* _delete_ keeps `status` and `save_pos` from its start; if the object's own cascade modified it (a child's
+       collection contained it) the stale values queue it twice and the delete overtakes pending updates, which
+       then fail their optimistic checks: not modelled *)
+    if negb (status_eqb (o_st ob3) (o_st ob)) || negb (Nat.eqb (o_ent ob3) (o_ent ob)) then Err (mark_declined s3) EOther
+    else if status_eqb (o_st ob3) SCreated then
+      let s4 := upd_obj (unqueue_slot s3 (o_pos ob3)) o (fun x => ob_set_st (ob_set_pos x None) SCancelled) in
+      Ok (match o_pk ob3 with Some pk => idx_del s4 e O (VInt pk) | None => s4 end) tt
+    else
+      let s4 := if status_eqb (o_st ob3) SModified then unqueue_slot s3 (o_pos ob3) else s3 in
+      Ok (queue (upd_obj s4 o (fun x => ob_set_st x SMarked)) o) tt
+  end.
+
 (* Entity._delete_ *)
 Fixpoint delete_obj (fuel : nat) (sch : schema) (s : sess) (o : oid) : out unit :=
   match fuel with
@@ -985,33 +1028,7 @@ Fixpoint delete_obj (fuel : nat) (sch : schema) (s : sess) (o : oid) : out unit 
                     else Ok s0 tt) s attrs in
         match r1 with
         | Err s1 er => Err s1 er
-        | Ok s1 _ =>
-          let s2 := fold_left (fun acc a =>
-                      match ref_info sch e a, obj_val acc o a with
-                      | Some (_, r_), Some (VRef x) => rev_remove acc x r_ o
-                      | _, _ => acc
-                      end) attrs s1 in
-          let s3 := fold_left (fun acc a =>
-                      if attr_uniq sch e a then
-                        match obj_val acc o a with
-                        | Some v => if is_vnone v then acc else idx_del acc e (S a) v
-                        | None => acc
-                        end
-                      else acc) attrs s2 in
-          match get_obj s3 o with
-          | None => Err s3 EOther
-          | Some ob3 =>
-            (* _delete_ keeps `status` and `save_pos` from its start; if the object's own cascade modified it (a child's
-               collection contained it) the stale values queue it twice and the delete overtakes pending updates, which
-               then fail their optimistic checks: not modelled *)
-            if negb (status_eqb (o_st ob3) (o_st ob)) then Err (mark_declined s3) EOther
-            else if status_eqb (o_st ob3) SCreated then
-              let s4 := upd_obj (unqueue_slot s3 (o_pos ob3)) o (fun x => ob_set_st (ob_set_pos x None) SCancelled) in
-              Ok (match o_pk ob3 with Some pk => idx_del s4 e O (VInt pk) | None => s4 end) tt
-            else
-              let s4 := if status_eqb (o_st ob3) SModified then unqueue_slot s3 (o_pos ob3) else s3 in
-              Ok (queue (upd_obj s4 o (fun x => ob_set_st x SMarked)) o) tt
-          end
+        | Ok s1 _ => delete_tail sch s1 o ob
         end
     end
   end.
